@@ -337,17 +337,28 @@ def c07LpRaise : Handler := fun c => do
         -- the harness hands over `torch.tensor(rows).view(1, [N,] T)`
         let rows := valuesA.getD k []
         pure (DistOp.logProb ⟨[1] ++ batchShape N ++ [rowsWidth rows], rows⟩)) c "trace"
-  let cfg := fun (cache : Bool) => distCfg lm V eos Topt N cache va (oovInHistory V)
-  let run := fun (pinned cache : Bool) => listJ distOutJ (runDist pinned (cfg cache) DistCache.empty ops)
-  let ref := listJ distOutJ ((logProbArgs ops).map (refLogProb (cfg true)))
-  -- hypothesis of C07_log_prob_cache_pinned_partial, evaluated: no call reaches a raising scorer
-  let scorable := (logProbArgs ops).all (fun v =>
-    (validating va && !(cfg true).valid v) || (cfg true).isEmpty v || !(cfg true).raises v)
+  -- `raises`: which values make the language model raise. Code as pinned: every value with an
+  -- out-of-vocabulary token in `hist[:-1]`; with `fill_after_eos` before the model (proposed
+  -- repair): only when that token sits before the first eos.
+  let variant := fun (raises : List (List Nat) → Bool) =>
+    let cfg := fun (cache : Bool) => distCfg lm V eos Topt N cache va raises
+    let run := fun (pinned cache : Bool) => listJ distOutJ (runDist pinned (cfg cache) DistCache.empty ops)
+    let ref := listJ distOutJ ((logProbArgs ops).map (refLogProb (cfg true)))
+    -- hypothesis of C07_log_prob_cache_pinned_partial, evaluated: no call reaches a raising scorer
+    let scorable := (logProbArgs ops).all (fun v =>
+      (validating va && !(cfg true).valid v) || (cfg true).isEmpty v || !(cfg true).raises v)
+    objJ [
+      ("model", objJ [("pinned_cached", run true true), ("pinned_fresh", run true false),
+        ("repaired_cached", run false true), ("repaired_fresh", run false false)]),
+      ("spec", objJ [("reference", ref)]),
+      ("flags", objJ [("scorable", boolJ scorable)])]
+  let plain := variant (oovInHistory V)
+  let filled := variant (oovBeforeEos V eos)
   pure (objJ [
-    ("model", objJ [("pinned_cached", run true true), ("pinned_fresh", run true false),
-      ("repaired_cached", run false true), ("repaired_fresh", run false false)]),
-    ("spec", objJ [("reference", ref)]),
-    ("flags", objJ [("scorable", boolJ scorable)])])
+    ("model", (plain.getObjVal? "model").toOption.getD Json.null),
+    ("spec", (plain.getObjVal? "spec").toOption.getD Json.null),
+    ("flags", (plain.getObjVal? "flags").toOption.getD Json.null),
+    ("filled", filled)])
 
 /-- c07.greedy: {V, frames: N×T×V, lens (or null), blank, is_probs} -/
 def c07Greedy : Handler := fun c => do
